@@ -245,7 +245,16 @@ def attach_scc_subdiagram(
             sd.node_data(main_node_id)["expanded"] = True
 
         if check_maa:
-            if len(scc_sd.node_attractor_candidates(scc_node_id, compute=True)) == 0:
+            try:
+                scc_node_is_clean = (
+                    len(scc_sd.node_attractor_candidates(scc_node_id, compute=True))
+                    == 0
+                )
+            except RuntimeError:
+                # The candidate search exceeded a resource limit: nothing is known
+                # about this node (same as in `expand_source_blocks`).
+                scc_node_is_clean = False
+            if scc_node_is_clean:
                 sd.node_data(main_node_id)["attractor_seeds"] = []
                 sd.node_data(main_node_id)["attractor_sets"] = []
 
@@ -275,7 +284,13 @@ def attach_scc_subdiagram(
     sd.node_data(attach_at)["expanded"] = True
     # Finally, if we are checking for MAAs, we can do that for the root too:
     if check_maa:
-        if len(scc_sd.node_attractor_candidates(scc_sd.root(), compute=True)) == 0:
+        try:
+            scc_root_is_clean = (
+                len(scc_sd.node_attractor_candidates(scc_sd.root(), compute=True)) == 0
+            )
+        except RuntimeError:
+            scc_root_is_clean = False
+        if scc_root_is_clean:
             sd.node_data(attach_at)["attractor_seeds"] = []
             sd.node_data(attach_at)["attractor_sets"] = []
 
